@@ -278,11 +278,8 @@ def run_fake(variant: str, cfg: dict, query, opname, variables, frames) -> dict:
         args, kwargs = fc.calls[0]
         kwargs = dict(kwargs)
         sub = kwargs.pop("subprotocols", None)
-        # the keyword under which websockets.connect takes handshake headers is a fact about the
-        # installed library (extra_headers before 14, additional_headers since): the real-server
-        # run decides whether the name works; K1 compares the headers under the model's key
-        if "additional_headers" in kwargs and "extra_headers" not in kwargs:
-            kwargs["extra_headers"] = kwargs.pop("additional_headers")
+        # (the fake connect has signature (*args, **kwargs), so _ws_headers_keyword() of /repo 91472e8 picks
+        # "extra_headers" here; which keyword the real library takes is decided by the real-server run)
         connect = [list(args), [str(s) for s in (sub or [])],
                    {k: (str(v) if k == "origin" and v is not None else v) for k, v in kwargs.items()}]
     return {"connect": connect, "events": events, "fin": fin,
